@@ -131,7 +131,7 @@ func c09() {
 		r.Inconclusive("strace-not-available")
 		r.Finish("strace is required for fault enumeration", 10)
 	}
-	plans := r.Pick(12, 25)
+	plans := r.Pick(10, 25)
 	workers := 16
 
 	q := newWorkQueue(workers)
